@@ -413,13 +413,18 @@ Variable x : nat.
 Let G := gnodes st0.
 Let B := blobs st0.
 
+(* p holds r: p lists r other than as its subject (a referrer does not keep its subject) *)
+Definition holds (p r : nat) : Prop := In r (succ p) /\ subject p <> Some r.
+
 (* the set Delete(x) removes when AutoGC is on: least set containing x, closed under
-   "untagged manifest in the store whose subject was removed" and "untagged node of
-   the store that had predecessors, all of which were removed" *)
+   "untagged manifest of the store whose subject (a manifest) was removed and whose holders
+   were all removed" and "untagged node of the store that had predecessors, all of which
+   were removed" *)
 Inductive Gone : nat -> Prop :=
 | G_target : Gone x
 | G_ref r m : Gone m -> manifest m = true -> In r G -> subject r = Some m ->
-              is_tagged st0 r = false -> Gone r
+              is_tagged st0 r = false ->
+              (forall p, In p G -> holds p r -> Gone p) -> Gone r
 | G_dang d : In d G -> is_tagged st0 d = false ->
              (exists p, In p G /\ In d (succ p)) ->
              (forall p, In p G -> In d (succ p) -> Gone p) -> Gone d.
@@ -431,7 +436,12 @@ Hypothesis x_in : In x B.
 Variable ord : nat -> list nat -> list nat.
 Hypothesis ord_perm : forall k l y, In y (ord k l) <-> In y l.
 
-Record DInv (st : state) (queue seen proc : list nat) : Prop := {
+(* an untagged referrer of an already processed manifest *)
+Definition waiting (proc : list nat) (r : nat) : Prop :=
+  In r G /\ is_tagged st0 r = false /\
+  exists m, In m proc /\ manifest m = true /\ subject r = Some m.
+
+Record DInv (st : state) (queue seen proc pending : list nat) : Prop := {
   di_seen : seen = proc ++ queue;
   di_nodup : NoDup seen;
   di_x : In x seen;
@@ -442,8 +452,10 @@ Record DInv (st : state) (queue seen proc : list nat) : Prop := {
   di_s : strays st = strays st0;
   di_sound : forall y, In y seen -> Gone y;
   di_sub : forall y, In y seen -> y = x \/ In y G;
-  di_ref : forall m r, In m proc -> manifest m = true -> In r G -> subject r = Some m ->
-                       is_tagged st0 r = false -> In r seen;
+  di_ref : forall r, waiting proc r -> In r seen \/ In r pending;
+  di_pend : forall r, In r pending -> waiting proc r;
+  di_blocked : queue = [] -> forall r, In r pending -> ~ In r seen ->
+               exists p, In p G /\ holds p r /\ ~ In p seen;
   di_dang : forall d, In d G -> is_tagged st0 d = false ->
                       (exists p, In p G /\ In d (succ p)) ->
                       (forall p, In p G -> In d (succ p) -> In p proc) -> In d seen }.
@@ -467,30 +479,52 @@ Proof.
   apply NoDup_incl_length; [assumption|]. intros y Hy. destruct (Hs y Hy); [left; congruence|now right].
 Qed.
 
-Lemma delete_loop_spec : forall fuel k st queue seen proc,
-  DInv st queue seen proc -> 2 + length G <= fuel + length proc ->
-  exists st' proc',
-    delete_loop succ subject manifest cfg_fixed ord fuel k st queue seen = (st', Ok) /\
-    DInv st' [] proc' proc'.
+Lemma has_subject_spec r p : has_subject subject r p = true <-> subject p = Some r.
 Proof.
-  induction fuel as [|fuel IH]; intros k st queue seen proc I Hf.
-  - pose proof (seen_bound seen (di_nodup _ _ _ _ I) (di_sub _ _ _ _ I)) as Hb.
-    rewrite (di_seen _ _ _ _ I), app_length in Hb. lia.
+  unfold has_subject. destruct (subject p) as [s|]; [|split; discriminate].
+  rewrite Nat.eqb_eq. split; congruence.
+Qed.
+
+(* Store.heldBySurvivor *)
+Lemma held_spec g seen r :
+  held succ subject g seen r = true <-> exists p, In p g /\ holds p r /\ ~ In p seen.
+Proof.
+  unfold held. rewrite existsb_exists. split.
+  - intros (p & Hp & H). apply preds_In in Hp as [Hg Hs]. apply andb_true_iff in H as [H1 H2].
+    apply negb_true_iff in H1, H2. apply memb_false in H1. exists p. repeat split; try assumption.
+    intro E. apply has_subject_spec in E. congruence.
+  - intros (p & Hg & [Hs Hn] & Hq). exists p. split; [apply preds_In; tauto|].
+    apply andb_true_iff. split; apply negb_true_iff.
+    + now apply memb_false.
+    + destruct (has_subject subject r p) eqn:E; [|reflexivity]. apply has_subject_spec in E. contradiction.
+Qed.
+
+Lemma delete_loop_spec : forall fuel k st queue seen proc pending,
+  DInv st queue seen proc pending -> 2 + length G <= fuel + length proc ->
+  exists st' proc' pend',
+    delete_loop succ subject manifest cfg_fixed ord fuel k st queue seen pending = (st', Ok) /\
+    DInv st' [] proc' proc' pend'.
+Proof.
+  induction fuel as [|fuel IH]; intros k st queue seen proc pending I Hf.
+  - pose proof (seen_bound seen (di_nodup _ _ _ _ _ I) (di_sub _ _ _ _ _ I)) as Hb.
+    rewrite (di_seen _ _ _ _ _ I), app_length in Hb. lia.
   - destruct queue as [|h q].
-    + simpl. exists st, proc. split; [reflexivity|].
-      pose proof (di_seen _ _ _ _ I) as Hs. rewrite app_nil_r in Hs. subst seen. assumption.
-    + pose proof (di_seen _ _ _ _ I) as Hseen.
-      pose proof (di_nodup _ _ _ _ I) as Hnd.
+    + simpl. exists st, proc, pending. split; [reflexivity|].
+      pose proof (di_seen _ _ _ _ _ I) as Hs. rewrite app_nil_r in Hs. subst seen. assumption.
+    + pose proof (di_seen _ _ _ _ _ I) as Hseen.
+      pose proof (di_nodup _ _ _ _ _ I) as Hnd.
+      assert (Hproc_seen : forall y, In y proc -> In y seen).
+      { intros y Hy. rewrite Hseen. apply in_or_app. now left. }
       assert (Hh_seen : In h seen) by (rewrite Hseen; apply in_or_app; right; now left).
       assert (Hh_proc : ~ In h proc).
       { rewrite Hseen in Hnd. apply NoDup_remove_2 in Hnd. intro H. apply Hnd.
         apply in_or_app. now left. }
       assert (Hh_B : In h B).
-      { destruct (di_sub _ _ _ _ I h Hh_seen) as [->|H]; [assumption|now apply wf_sub]. }
+      { destruct (di_sub _ _ _ _ _ I h Hh_seen) as [->|H]; [assumption|now apply wf_sub]. }
       assert (Hh_b : memb h (blobs st) = true).
-      { apply memb_In. apply (di_b _ _ _ _ I). split; assumption. }
-      cbn [delete_loop]. unfold delete_one. rewrite Hh_b. rewrite (di_a _ _ _ _ I).
-      cbn [andb fixF3 fixF4 fixLeaf skipLinked cfg_fixed negb orb].
+      { apply memb_In. apply (di_b _ _ _ _ _ I). split; assumption. }
+      cbn [delete_loop]. unfold delete_one. rewrite Hh_b. rewrite (di_a _ _ _ _ _ I).
+      cbn [andb fixF3 fixF4 fixLeaf skipLinked fixHold cfg_fixed negb orb app].
       set (st' := {| blobs := removeb h (blobs st);
                      idx := filter (fun e => negb (snd e =? h)) (idx st);
                      gnodes := removeb h (gnodes st);
@@ -500,14 +534,22 @@ Proof.
                    else []).
       set (dang' := filter (fun d => memb d (blobs st') && negb (is_tagged st' d))
                            (danglings succ (gnodes st) h)).
-      set (batch := ord k (refs ++ dang')).
-      set (fresh := dedup (filter (fun y => negb (memb y seen)) batch)).
-      assert (Hfresh : forall y, In y fresh <-> (In y refs \/ In y dang') /\ ~ In y seen).
-      { intro y. unfold fresh, batch. rewrite dedup_In, filter_In, ord_perm, in_app_iff.
+      set (fresh := dedup (filter (fun y => negb (memb y seen)) (ord k dang'))).
+      set (seen1 := seen ++ fresh).
+      set (cand := dedup (filter (fun r => negb (memb r seen1)) (pending ++ ord k refs))).
+      set (ready := filter (fun r => negb (held succ subject (gnodes st') seen1 r)) cand).
+      set (rest := filter (held succ subject (gnodes st') seen1) cand).
+      assert (Hg' : forall y, In y (gnodes st') <-> In y G /\ ~ In y (proc ++ [h])).
+      { intro y. unfold st'. cbn [gnodes]. rewrite removeb_In, (di_g _ _ _ _ _ I), in_app_iff.
+        simpl. split.
+        - intros [[H1 H2] H3]. split; [assumption|]. intros [H|[H|[]]]; [tauto|congruence].
+        - intros [H1 H2]. repeat split; try assumption; intro H; apply H2; [now left|right; left; congruence]. }
+      assert (Hfresh : forall y, In y fresh <-> In y dang' /\ ~ In y seen).
+      { intro y. unfold fresh. rewrite dedup_In, filter_In, ord_perm.
         rewrite negb_true_iff, memb_false. tauto. }
       assert (Hidx' : forall e, In e (idx st') <-> In e (idx st0) /\ ~ In (snd e) (proc ++ [h])).
       { intro e. unfold st'. cbn [idx]. rewrite filter_In, negb_true_iff, Nat.eqb_neq.
-        rewrite (di_i _ _ _ _ I), in_app_iff. simpl. split.
+        rewrite (di_i _ _ _ _ _ I), in_app_iff. simpl. split.
         - intros [[H1 H2] H3]. split; [assumption|]. intros [H|[H|[]]]; [now apply H2|]. congruence.
         - intros [H1 H2]. split; [split; [assumption|]|]; intro H; apply H2; [now left|].
           right. left. congruence. }
@@ -516,90 +558,138 @@ Proof.
       { intro r. unfold refs. destruct (manifest h).
         - rewrite filter_In, referrers_In, negb_true_iff. split.
           + intros [[Hg Hs] Ht]. repeat split; try assumption.
-            rewrite <- (tagged_same st proc r (di_i _ _ _ _ I)); [assumption|].
-            apply (di_g _ _ _ _ I) in Hg. tauto.
+            rewrite <- (tagged_same st proc r (di_i _ _ _ _ _ I)); [assumption|].
+            apply (di_g _ _ _ _ _ I) in Hg. tauto.
           + intros (_ & Hg & Hs & Ht). repeat split; try assumption.
-            rewrite (tagged_same st proc r (di_i _ _ _ _ I)); [assumption|].
-            apply (di_g _ _ _ _ I) in Hg. tauto.
+            rewrite (tagged_same st proc r (di_i _ _ _ _ _ I)); [assumption|].
+            apply (di_g _ _ _ _ _ I) in Hg. tauto.
         - simpl. split; [tauto|]. intros [H _]. discriminate. }
       assert (Hdang : forall d, In d dang' <->
                 In d (danglings succ (gnodes st) h) /\ is_tagged st0 d = false).
       { intro d. unfold dang'. rewrite filter_In, andb_true_iff, negb_true_iff, memb_In.
         assert (Hfacts : In d (danglings succ (gnodes st) h) ->
                          ~ In d (proc ++ [h]) /\ In d (blobs st')).
-        { intro Hd. apply danglings_In in Hd as (_ & Hs & Hg & _). apply (di_g _ _ _ _ I) in Hg.
+        { intro Hd. apply danglings_In in Hd as (_ & Hs & Hg & _). apply (di_g _ _ _ _ _ I) in Hg.
           apply succ_lt in Hs. split.
           - rewrite in_app_iff. simpl. intros [H|[H|[]]]; [tauto|lia].
           - unfold st'. cbn [blobs]. apply removeb_In. split; [|lia].
-            apply (di_b _ _ _ _ I). split; [apply wf_sub|]; tauto. }
+            apply (di_b _ _ _ _ _ I). split; [apply wf_sub|]; tauto. }
         split.
         - intros (Hd & _ & Ht). split; [assumption|]. destruct (Hfacts Hd) as [Hp _].
           rewrite <- (tagged_same st' (proc ++ [h]) d Hidx'); assumption.
         - intros (Hd & Ht). destruct (Hfacts Hd) as [Hp Hb]. repeat split; try assumption.
           rewrite (tagged_same st' (proc ++ [h]) d Hidx'); assumption. }
-      assert (I' : DInv st' (q ++ fresh) (seen ++ fresh) (proc ++ [h])).
+      (* everything that waits after this step, before the pass over pending *)
+      assert (Hwait1 : forall r, In r (pending ++ ord k refs) -> waiting (proc ++ [h]) r).
+      { intros r Hr. apply in_app_or in Hr as [Hr|Hr].
+        - destruct (di_pend _ _ _ _ _ I r Hr) as (HG & Ht & m & Hm & Hman & Hs).
+          repeat split; try assumption. exists m. repeat split; try assumption. apply in_or_app. now left.
+        - apply ord_perm in Hr. apply Hrefs in Hr as (Hman & Hg & Hs & Ht).
+          apply (di_g _ _ _ _ _ I) in Hg as [Hg _]. repeat split; try assumption.
+          exists h. repeat split; try assumption. apply in_or_app. right. now left. }
+      assert (Hcand : forall r, In r cand <-> In r (pending ++ ord k refs) /\ ~ In r seen1).
+      { intro r. unfold cand. rewrite dedup_In, filter_In, negb_true_iff, memb_false. tauto. }
+      assert (Hready : forall r, In r ready <->
+                In r cand /\ ~ exists p, In p (gnodes st') /\ holds p r /\ ~ In p seen1).
+      { intro r. unfold ready. rewrite filter_In, negb_true_iff. split; intros [Hc Hh]; (split; [assumption|]).
+        - intro E. apply held_spec in E. congruence.
+        - destruct (held succ subject (gnodes st') seen1 r) eqn:E; [|reflexivity].
+          apply held_spec in E. contradiction. }
+      assert (Hrest : forall r, In r rest <->
+                In r cand /\ exists p, In p (gnodes st') /\ holds p r /\ ~ In p seen1).
+      { intro r. unfold rest. rewrite filter_In, held_spec. tauto. }
+      assert (Hsound1 : forall y, In y seen1 -> Gone y).
+      { intros y Hy. apply in_app_or in Hy as [Hy|Hy]; [now apply (di_sound _ _ _ _ _ I)|].
+        apply Hfresh in Hy as [Hy _].
+        apply Hdang in Hy as [Hd Ht]. apply danglings_In in Hd as (Hhg & Hs & Hg & Hall).
+        apply (di_g _ _ _ _ _ I) in Hg as [Hg _]. apply (di_g _ _ _ _ _ I) in Hhg as [HhG _].
+        apply G_dang; try assumption; [eauto|].
+        intros p Hp Hps. destruct (in_dec Nat.eq_dec p proc) as [Hpp|Hpp].
+        - apply (di_sound _ _ _ _ _ I). now apply Hproc_seen.
+        - assert (p = h) by (apply Hall; [apply (di_g _ _ _ _ _ I); tauto|assumption]).
+          subst. now apply (di_sound _ _ _ _ _ I). }
+      assert (Hproc1 : forall y, In y (proc ++ [h]) -> In y seen1).
+      { intros y Hy. apply in_or_app. left. apply in_app_or in Hy as [Hy|[<-|[]]]; auto. }
+      assert (I' : DInv st' (q ++ fresh ++ ready) (seen1 ++ ready) (proc ++ [h]) rest).
       { constructor.
-        - rewrite Hseen. rewrite <- !app_assoc. reflexivity.
-        - apply NoDup_app_intro; [assumption|apply dedup_NoDup|].
-          intros y Hy Hy'. apply Hfresh in Hy'. tauto.
-        - apply in_or_app. left. apply (di_x _ _ _ _ I).
-        - intro y. unfold st'. cbn [gnodes]. rewrite removeb_In, (di_g _ _ _ _ I), in_app_iff.
-          simpl. split.
-          + intros [[H1 H2] H3]. split; [assumption|]. intros [H|[H|[]]]; [tauto|congruence].
-          + intros [H1 H2]. repeat split; try assumption; intro H; apply H2; [now left|right; left; congruence].
-        - intro y. unfold st'. cbn [blobs]. rewrite removeb_In, (di_b _ _ _ _ I), in_app_iff.
+        - unfold seen1. rewrite Hseen. rewrite <- !app_assoc. reflexivity.
+        - apply NoDup_app_intro.
+          + apply NoDup_app_intro; [assumption|apply dedup_NoDup|].
+            intros y Hy Hy'. apply Hfresh in Hy'. tauto.
+          + unfold ready. apply NoDup_filter. apply dedup_NoDup.
+          + intros y Hy Hy'. apply Hready in Hy' as [Hy' _]. apply Hcand in Hy'. tauto.
+        - apply in_or_app. left. apply in_or_app. left. apply (di_x _ _ _ _ _ I).
+        - exact Hg'.
+        - intro y. unfold st'. cbn [blobs]. rewrite removeb_In, (di_b _ _ _ _ _ I), in_app_iff.
           simpl. split.
           + intros [[H1 H2] H3]. split; [assumption|]. intros [H|[H|[]]]; [tauto|congruence].
           + intros [H1 H2]. repeat split; try assumption; intro H; apply H2; [now left|right; left; congruence].
         - exact Hidx'.
         - reflexivity.
-        - apply (di_s _ _ _ _ I).
-        - intros y Hy. apply in_app_or in Hy as [Hy|Hy]; [now apply (di_sound _ _ _ _ I)|].
-          apply Hfresh in Hy as [[Hy|Hy] _].
-          + apply Hrefs in Hy as (Hm & Hg & Hs & Ht). apply (di_g _ _ _ _ I) in Hg as [Hg _].
-            eapply G_ref; eauto. now apply (di_sound _ _ _ _ I).
-          + apply Hdang in Hy as [Hd Ht]. apply danglings_In in Hd as (Hhg & Hs & Hg & Hall).
-            apply (di_g _ _ _ _ I) in Hg as [Hg _]. apply (di_g _ _ _ _ I) in Hhg as [HhG _].
-            apply G_dang; try assumption; [eauto|].
-            intros p Hp Hps. destruct (in_dec Nat.eq_dec p proc) as [Hpp|Hpp].
-            * apply (di_sound _ _ _ _ I). rewrite Hseen. apply in_or_app. now left.
-            * assert (p = h) by (apply Hall; [apply (di_g _ _ _ _ I); tauto|assumption]).
-              subst. now apply (di_sound _ _ _ _ I).
-        - intros y Hy. apply in_app_or in Hy as [Hy|Hy]; [now apply (di_sub _ _ _ _ I)|].
-          right. apply Hfresh in Hy as [[Hy|Hy] _].
-          + apply Hrefs in Hy as (_ & Hg & _). apply (di_g _ _ _ _ I) in Hg. tauto.
-          + apply Hdang in Hy as [Hd _]. apply danglings_In in Hd as (_ & _ & Hg & _).
-            apply (di_g _ _ _ _ I) in Hg. tauto.
-        - intros m r Hm Hman Hr Hs Ht. apply in_app_or in Hm as [Hm|[<-|[]]].
-          + apply in_or_app. left. eapply (di_ref _ _ _ _ I); eauto.
-          + destruct (in_dec Nat.eq_dec r seen) as [Hrs|Hrs]; apply in_or_app; [now left|right].
-            apply Hfresh. split; [|assumption]. left. apply Hrefs. repeat split; try assumption.
-            apply (di_g _ _ _ _ I). split; [assumption|]. intro Hp. apply Hrs. rewrite Hseen.
-            apply in_or_app. now left.
+        - apply (di_s _ _ _ _ _ I).
+        - intros y Hy. apply in_app_or in Hy as [Hy|Hy]; [now apply Hsound1|].
+          apply Hready in Hy as [Hc Hno]. apply Hcand in Hc as [Hc _].
+          destruct (Hwait1 y Hc) as (HG & Ht & m & Hm & Hman & Hs).
+          apply (G_ref y m); try assumption.
+          + apply Hsound1. now apply Hproc1.
+          + intros p Hp Hh. destruct (in_dec Nat.eq_dec p seen1) as [Hps|Hps]; [now apply Hsound1|].
+            exfalso. apply Hno. exists p. repeat split; try apply Hh; try assumption.
+            apply Hg'. split; [assumption|]. intro Hpp. apply Hps. now apply Hproc1.
+        - intros y Hy. apply in_app_or in Hy as [Hy|Hy].
+          + apply in_app_or in Hy as [Hy|Hy]; [now apply (di_sub _ _ _ _ _ I)|].
+            right. apply Hfresh in Hy as [Hy _]. apply Hdang in Hy as [Hd _].
+            apply danglings_In in Hd as (_ & _ & Hg & _). apply (di_g _ _ _ _ _ I) in Hg. tauto.
+          + right. apply Hready in Hy as [Hc _]. apply Hcand in Hc as [Hc _].
+            now destruct (Hwait1 y Hc).
+        - intros r Hw. destruct (in_dec Nat.eq_dec r seen1) as [Hrs|Hrs];
+            [left; apply in_or_app; now left|].
+          assert (Hc : In r cand).
+          { apply Hcand. split; [|assumption].
+            destruct Hw as (HG & Ht & m & Hm & Hman & Hs). apply in_app_or in Hm as [Hm|[<-|[]]].
+            - destruct (di_ref _ _ _ _ _ I r) as [H|H].
+              + repeat split; try assumption. eauto.
+              + exfalso. apply Hrs. apply in_or_app. now left.
+              + apply in_or_app. now left.
+            - apply in_or_app. right. apply ord_perm. apply Hrefs. repeat split; try assumption.
+              apply (di_g _ _ _ _ _ I). split; [assumption|]. intro Hp. apply Hrs. apply Hproc1.
+              apply in_or_app. now left. }
+          destruct (held succ subject (gnodes st') seen1 r) eqn:E.
+          + right. unfold rest. apply filter_In. split; assumption.
+          + left. apply in_or_app. right. unfold ready. apply filter_In. split; [assumption|].
+            now rewrite E.
+        - intros r Hr. apply Hrest in Hr as [Hc _]. apply Hcand in Hc as [Hc _]. now apply Hwait1.
+        - intros Hq r Hr Hrs.
+          assert (Hre : ready = []).
+          { destruct q; [|discriminate]. destruct fresh; [|discriminate]. exact Hq. }
+          apply Hrest in Hr as [_ (p & Hp & Hh & Hps)]. exists p. repeat split; try apply Hh.
+          + apply Hg' in Hp. tauto.
+          + rewrite Hre, app_nil_r. assumption.
         - intros d Hd Ht Hex Hall.
-          destruct (in_dec Nat.eq_dec d seen) as [Hds|Hds]; apply in_or_app; [now left|].
-          assert (Hdp : ~ In d proc).
-          { intro Hp. apply Hds. rewrite Hseen. apply in_or_app. now left. }
+          destruct (in_dec Nat.eq_dec d seen) as [Hds|Hds];
+            [apply in_or_app; left; apply in_or_app; now left|].
+          assert (Hdp : ~ In d proc) by (intro Hp; apply Hds; now apply Hproc_seen).
+          apply in_or_app. left. apply in_or_app.
           destruct (in_dec Nat.eq_dec h G) as [HhG|HhG].
           + destruct (in_dec Nat.eq_dec d (succ h)) as [Hsh|Hsh].
-            * right. apply Hfresh. split; [|assumption]. right. apply Hdang. split; [|assumption].
+            * right. apply Hfresh. split; [|assumption]. apply Hdang. split; [|assumption].
               apply danglings_In. repeat split; try assumption.
-              -- apply (di_g _ _ _ _ I). tauto.
-              -- apply (di_g _ _ _ _ I). tauto.
-              -- intros p Hp Hps. apply (di_g _ _ _ _ I) in Hp as [HpG Hpp].
+              -- apply (di_g _ _ _ _ _ I). tauto.
+              -- apply (di_g _ _ _ _ _ I). tauto.
+              -- intros p Hp Hps. apply (di_g _ _ _ _ _ I) in Hp as [HpG Hpp].
                  specialize (Hall p HpG Hps). apply in_app_or in Hall as [H|[H|[]]]; [tauto|congruence].
-            * left. apply (di_dang _ _ _ _ I); try assumption. intros p Hp Hps.
+            * left. apply (di_dang _ _ _ _ _ I); try assumption. intros p Hp Hps.
               specialize (Hall p Hp Hps). apply in_app_or in Hall as [H|[H|[]]]; [assumption|].
               subst. contradiction.
-          + left. apply (di_dang _ _ _ _ I); try assumption. intros p Hp Hps.
+          + left. apply (di_dang _ _ _ _ _ I); try assumption. intros p Hp Hps.
             specialize (Hall p Hp Hps). apply in_app_or in Hall as [H|[H|[]]]; [assumption|].
             subst. contradiction. }
-      destruct (IH (S k) st' (q ++ fresh) (seen ++ fresh) (proc ++ [h]) I') as (st2 & proc2 & H2 & I2).
+      destruct (IH (S k) st' (q ++ fresh ++ ready) (seen1 ++ ready) (proc ++ [h]) rest I')
+        as (st2 & proc2 & pend2 & H2 & I2).
       { rewrite app_length. simpl. lia. }
-      exists st2, proc2. split; [|assumption]. exact H2.
+      exists st2, proc2, pend2. split; [|assumption]. exact H2.
 Qed.
 
-Lemma DInv_init : DInv st0 [x] [x] [].
+Lemma DInv_init : DInv st0 [x] [x] [] [].
 Proof.
   constructor; try reflexivity; simpl.
   - constructor; [intros []|constructor].
@@ -610,17 +700,23 @@ Proof.
   - assumption.
   - intros y [<-|[]]. constructor.
   - intros y [<-|[]]. now left.
-  - intros m r [].
+  - intros r (_ & _ & m & [] & _).
+  - intros r [].
+  - discriminate.
   - intros d Hd Ht (p & Hp & Hps) Hall. destruct (Hall p Hp Hps).
 Qed.
 
-Lemma final_gone st' proc : DInv st' [] proc proc -> forall y, In y proc <-> Gone y.
+Lemma final_gone st' proc pend : DInv st' [] proc proc pend -> forall y, In y proc <-> Gone y.
 Proof.
-  intros I y. split; [apply (di_sound _ _ _ _ I)|].
-  induction 1 as [|r m _ IHm Hman Hr Hs Ht|d Hd Ht Hex _ IHp].
-  - apply (di_x _ _ _ _ I).
-  - eapply (di_ref _ _ _ _ I); eauto.
-  - apply (di_dang _ _ _ _ I); assumption.
+  intros I y. split; [apply (di_sound _ _ _ _ _ I)|].
+  induction 1 as [|r m _ IHm Hman Hr Hs Ht _ IHh|d Hd Ht Hex _ IHp].
+  - apply (di_x _ _ _ _ _ I).
+  - destruct (di_ref _ _ _ _ _ I r) as [H|H]; [|assumption|].
+    + repeat split; try assumption. eauto.
+    + destruct (in_dec Nat.eq_dec r proc) as [Hp|Hp]; [assumption|].
+      destruct (di_blocked _ _ _ _ _ I eq_refl r H Hp) as (p & HpG & Hh & Hps).
+      exfalso. apply Hps. now apply IHh.
+  - apply (di_dang _ _ _ _ _ I); assumption.
 Qed.
 
 (* Delete of the repaired code, AutoGC on: for every iteration order it returns Ok
@@ -635,22 +731,22 @@ Lemma delete_exact_sec :
     strays st' = strays st0 /\ autogc st' = autogc st0.
 Proof.
   unfold delete. cbn [fixF4 cfg_fixed]. unfold delete_fuel.
-  destruct (delete_loop_spec (S (S (length (gnodes st0)))) 0 st0 [x] [x] [] DInv_init)
-    as (st' & proc & Hd & I).
+  destruct (delete_loop_spec (S (S (length (gnodes st0)))) 0 st0 [x] [x] [] [] DInv_init)
+    as (st' & proc & pend & Hd & I).
   { simpl. fold G. lia. }
   exists st'. split; [exact Hd|].
-  pose proof (final_gone st' proc I) as HG. repeat split.
-  - apply (di_b _ _ _ _ I) in H. tauto.
-  - apply (di_b _ _ _ _ I) in H as [_ H]. now rewrite <- HG.
-  - intros [H1 H2]. apply (di_b _ _ _ _ I). rewrite HG. tauto.
-  - apply (di_g _ _ _ _ I) in H. tauto.
-  - apply (di_g _ _ _ _ I) in H as [_ H]. now rewrite <- HG.
-  - intros [H1 H2]. apply (di_g _ _ _ _ I). rewrite HG. tauto.
-  - apply (di_i _ _ _ _ I) in H. tauto.
-  - apply (di_i _ _ _ _ I) in H as [_ H]. now rewrite <- HG.
-  - intros [H1 H2]. apply (di_i _ _ _ _ I). rewrite HG. tauto.
-  - apply (di_s _ _ _ _ I).
-  - rewrite (di_a _ _ _ _ I). now rewrite auto_on.
+  pose proof (final_gone st' proc pend I) as HG. repeat split.
+  - apply (di_b _ _ _ _ _ I) in H. tauto.
+  - apply (di_b _ _ _ _ _ I) in H as [_ H]. now rewrite <- HG.
+  - intros [H1 H2]. apply (di_b _ _ _ _ _ I). rewrite HG. tauto.
+  - apply (di_g _ _ _ _ _ I) in H. tauto.
+  - apply (di_g _ _ _ _ _ I) in H as [_ H]. now rewrite <- HG.
+  - intros [H1 H2]. apply (di_g _ _ _ _ _ I). rewrite HG. tauto.
+  - apply (di_i _ _ _ _ _ I) in H. tauto.
+  - apply (di_i _ _ _ _ _ I) in H as [_ H]. now rewrite <- HG.
+  - intros [H1 H2]. apply (di_i _ _ _ _ _ I). rewrite HG. tauto.
+  - apply (di_s _ _ _ _ _ I).
+  - rewrite (di_a _ _ _ _ _ I). now rewrite auto_on.
 Qed.
 
 (* what the cascade never touches *)
@@ -660,22 +756,18 @@ Proof. destruct 1; intro; try assumption. congruence. Qed.
 Lemma gone_in_store y : Gone y -> y = x \/ In y G.
 Proof. destruct 1; auto. Qed.
 
+(* no surviving node lists a removed node: every holder of it is removed as well *)
+Lemma gone_holders y : Gone y -> y <> x -> forall p, In p G -> holds p y -> Gone p.
+Proof.
+  intros H Hne. destruct H as [|r m _ _ _ _ _ Hh|d _ _ _ Hall]; [congruence|exact Hh|].
+  intros p Hp [Hs _]. now apply Hall.
+Qed.
+
 End Delete.
 
 
 (* ------------------------------------------------------------------ *)
 (* consequences used by the property file *)
-
-(* a node removed by the dangling rule has no surviving predecessor *)
-Lemma gone_dangling_no_survivor st0 x y :
-  Gone st0 x y -> y <> x -> (forall m, subject y = Some m -> ~ Gone st0 x m) ->
-  forall p, In p (gnodes st0) -> In y (succ p) -> Gone st0 x p.
-Proof.
-  intros H Hne Hnr. destruct H as [|r m Hm _ _ Hs _|d _ _ _ Hall].
-  - congruence.
-  - exfalso. eapply Hnr; eauto.
-  - exact Hall.
-Qed.
 
 (* AutoGC off: exactly the target goes *)
 Lemma delete_plain st x ord :
@@ -688,10 +780,10 @@ Lemma delete_plain st x ord :
     strays st' = strays st /\ autogc st' = autogc st.
 Proof.
   intros Ho Ha Hx. apply memb_In in Hx. unfold delete, delete_fuel. cbn [fixF4 cfg_fixed].
-  cbn [delete_loop]. unfold delete_one. rewrite Hx, Ha. cbn [andb].
-  assert (E : ord 0 ([] ++ []) = []).
-  { destruct (ord 0 ([] ++ [])) as [|a l] eqn:E; [reflexivity|].
-    exfalso. assert (H : In a (ord 0 ([] ++ []))) by (rewrite E; now left).
+  cbn [delete_loop]. unfold delete_one. rewrite Hx, Ha. cbn [andb fixHold cfg_fixed app].
+  assert (E : ord 0 [] = []).
+  { destruct (ord 0 []) as [|a l] eqn:E; [reflexivity|].
+    exfalso. assert (H : In a (ord 0 [])) by (rewrite E; now left).
     apply Ho in H. destruct H. }
   rewrite E. simpl. eexists. split; [reflexivity|]. simpl. repeat split.
 Qed.
@@ -701,7 +793,7 @@ Lemma delete_absent st x ord c :
   ~ In x (blobs st) -> snd (delete succ subject manifest c ord st x) = ENotFound.
 Proof.
   intro Hx. apply memb_false in Hx. unfold delete.
-  assert (H : forall f, snd (delete_loop succ subject manifest c ord (S f) 0 st [x] [x]) = ENotFound).
+  assert (H : forall f, snd (delete_loop succ subject manifest c ord (S f) 0 st [x] [x] []) = ENotFound).
   { intro f. cbn [delete_loop]. unfold delete_one. rewrite Hx. reflexivity. }
   destruct (fixF4 c); [unfold delete_fuel|]; apply H.
 Qed.
@@ -709,10 +801,10 @@ Qed.
 (* graph nodes are stored blobs: invariant of every history *)
 Definition wf (st : state) : Prop := forall y, In y (gnodes st) -> In y (blobs st).
 
-Lemma delete_loop_wf c ord : forall fuel k st queue seen,
-  wf st -> wf (fst (delete_loop succ subject manifest c ord fuel k st queue seen)).
+Lemma delete_loop_wf c ord : forall fuel k st queue seen pending,
+  wf st -> wf (fst (delete_loop succ subject manifest c ord fuel k st queue seen pending)).
 Proof.
-  induction fuel as [|f IH]; intros k st queue seen Hw; [exact Hw|].
+  induction fuel as [|f IH]; intros k st queue seen pending Hw; [exact Hw|].
   cbn [delete_loop]. destruct queue as [|h q]; [exact Hw|].
   unfold delete_one.
   assert (Hw' : wf {| blobs := removeb h (blobs st);
@@ -750,10 +842,10 @@ Qed.
 (* the repaired code never records a stale tag-set entry: [is_tagged] is "has a tag" *)
 Definition no_stale (st : state) : Prop := forall t n, ~ In (RStale t, n) (idx st).
 
-Lemma delete_loop_no_stale c ord : forall fuel k st queue seen,
-  no_stale st -> no_stale (fst (delete_loop succ subject manifest c ord fuel k st queue seen)).
+Lemma delete_loop_no_stale c ord : forall fuel k st queue seen pending,
+  no_stale st -> no_stale (fst (delete_loop succ subject manifest c ord fuel k st queue seen pending)).
 Proof.
-  induction fuel as [|f IH]; intros k st queue seen Hw; [exact Hw|].
+  induction fuel as [|f IH]; intros k st queue seen pending Hw; [exact Hw|].
   cbn [delete_loop]. destruct queue as [|h q]; [exact Hw|].
   unfold delete_one.
   assert (Hw' : no_stale {| blobs := removeb h (blobs st);
@@ -851,7 +943,7 @@ Proof. vm_compute. reflexivity. Qed.
 
 (* F3: without the repair a tagged referrer is deleted together with its tag *)
 Definition cfg_noF3 := {| fixF1 := true; fixF3 := false; fixF4 := true; fixF13 := true;
-  fixStale := true; fixLeaf := true; skipLinked := false |}.
+  fixStale := true; fixLeaf := true; skipLinked := false; fixHold := true |}.
 Lemma delete_noF3_removes_tagged :
   let st := run_w cfg_fixed [OPush 0; OPush 1; OPush 2; OTag 2 0] in
   let st' := fst (delete succ_w subject_w manifest_w cfg_noF3 ord_id st 1) in
@@ -860,7 +952,7 @@ Proof. vm_compute. intuition (try discriminate). Qed.
 
 (* F4: without the repair the outcome depends on the iteration order *)
 Definition cfg_noF4 := {| fixF1 := true; fixF3 := true; fixF4 := false; fixF13 := true;
-  fixStale := true; fixLeaf := true; skipLinked := false |}.
+  fixStale := true; fixLeaf := true; skipLinked := false; fixHold := false |}.
 Definition ord_rev (k : nat) (l : list nat) : list nat := rev l.
 Lemma delete_noF4_order_dependent :
   let st := run_w cfg_fixed [OPush 0; OPush 1; OPush 2; OPush 3] in
@@ -870,7 +962,7 @@ Proof. vm_compute. split; reflexivity. Qed.
 
 (* F13: a single referrer pass keeps 7 or sweeps it depending on the order *)
 Definition cfg_noF13 := {| fixF1 := true; fixF3 := true; fixF4 := true; fixF13 := false;
-  fixStale := true; fixLeaf := true; skipLinked := false |}.
+  fixStale := true; fixLeaf := true; skipLinked := false; fixHold := true |}.
 Lemma gc_noF13_order_dependent :
   let st := run_w cfg_fixed [OPush 0; OPush 1; OPush 5; OPush 6; OPush 7; OTag 1 0] in
   In 7 (blobs (fst (gc succ_w subject_w manifest_w cfg_noF13 false (fun _ => [6; 7; 5]) st))) /\
@@ -883,18 +975,23 @@ Proof.
   - intro n. tauto.
 Qed.
 
-(* known finding: a referrer is removed although a surviving (tagged) index lists it *)
+(* before the repair of Delete's referrer rule: the referrer 2 of the deleted manifest 1 is
+   removed although the surviving tagged index 4 lists it (repaired: 2 stays) *)
+Definition cfg_noHold := {| fixF1 := true; fixF3 := true; fixF4 := true; fixF13 := true;
+  fixStale := true; fixLeaf := true; skipLinked := false; fixHold := false |}.
 Lemma delete_referrer_still_linked :
   let st := run_w cfg_fixed [OPush 0; OPush 1; OPush 2; OPush 4; OTag 4 0] in
-  let st' := fst (delete succ_w subject_w manifest_w cfg_fixed ord_id st 1) in
-  snd (delete succ_w subject_w manifest_w cfg_fixed ord_id st 1) = Ok /\
-  ~ In 2 (blobs st') /\ In 4 (gnodes st') /\ In 2 (succ_w 4).
+  let st' := fst (delete succ_w subject_w manifest_w cfg_noHold ord_id st 1) in
+  let fx' := fst (delete succ_w subject_w manifest_w cfg_fixed ord_id st 1) in
+  snd (delete succ_w subject_w manifest_w cfg_noHold ord_id st 1) = Ok /\
+  ~ In 2 (blobs st') /\ In 4 (gnodes st') /\ In 2 (succ_w 4) /\ subject_w 4 = None /\
+  blobs fx' = [4; 2; 0].
 Proof. vm_compute. intuition discriminate. Qed.
 
 (* pre-repair resolver.Memory.Tag: tag 0 is moved from 5 to 1; deleting the index 6 that
    lists 5 leaves 5 behind because its tag set still holds the moved reference *)
 Definition cfg_noStale := {| fixF1 := true; fixF3 := true; fixF4 := true; fixF13 := true;
-  fixStale := false; fixLeaf := true; skipLinked := false |}.
+  fixStale := false; fixLeaf := true; skipLinked := false; fixHold := true |}.
 Definition stale_ops := [OPush 0; OPush 5; OPush 6; OPush 1; OTag 5 0; OTag 1 0].
 Lemma delete_stale_tag_leaves_garbage :
   let st := run_w cfg_noStale stale_ops in
@@ -914,7 +1011,7 @@ Qed.
 (* pre-repair Delete: after GC the never-stored config 0 of the tagged image 1 is a graph
    node; deleting 1 queues it and aborts with not found *)
 Definition cfg_noLeaf := {| fixF1 := true; fixF3 := true; fixF4 := true; fixF13 := true;
-  fixStale := true; fixLeaf := false; skipLinked := false |}.
+  fixStale := true; fixLeaf := false; skipLinked := false; fixHold := true |}.
 Definition leaf_ops := [OPush 1; OTag 1 0; OGC].
 Lemma delete_absent_leaf_aborts :
   let st := run_w cfg_noLeaf leaf_ops in
@@ -927,7 +1024,7 @@ Proof. vm_compute. intuition discriminate. Qed.
    predecessors are already queued -- breaks referrer chains: 2 (referrer of 1) is held by
    its own referrer 8, so deleting 1 leaves 2 and 8 behind as garbage nobody else links to *)
 Definition cfg_skipLinked := {| fixF1 := true; fixF3 := true; fixF4 := true; fixF13 := true;
-  fixStale := true; fixLeaf := true; skipLinked := true |}.
+  fixStale := true; fixLeaf := true; skipLinked := true; fixHold := false |}.
 Lemma delete_skip_linked_leaves_chain :
   let st := run_w cfg_fixed [OPush 0; OPush 1; OPush 2; OPush 8] in
   blobs (fst (delete succ_w subject_w manifest_w cfg_skipLinked ord_id st 1)) = [8; 2; 0] /\
@@ -1023,17 +1120,18 @@ Proof.
   rewrite Hd. discriminate.
 Qed.
 
-(* what the cascade may touch *)
+(* what the cascade may touch: never a tagged node, never a node outside the graph, never a
+   node that a surviving node lists (every holder of a removed node is removed too) *)
 Lemma delete_never_final : forall succ subject manifest st x y,
   Gone succ subject manifest st x y -> y <> x ->
   is_tagged st y = false /\ In y (gnodes st) /\
-  ((forall m, subject y = Some m -> ~ Gone succ subject manifest st x m) ->
-   forall p, In p (gnodes st) -> In y (succ p) -> Gone succ subject manifest st x p).
+  (forall p, In p (gnodes st) -> In y (succ p) -> subject p <> Some y ->
+             Gone succ subject manifest st x p).
 Proof.
   intros succ subject manifest st x y HG Hn. split; [|split].
   - eapply gone_untagged; eauto.
   - destruct (gone_in_store _ _ _ _ _ _ HG); [contradiction|assumption].
-  - now apply gone_dangling_no_survivor.
+  - intros p Hp Hs Hne. eapply gone_holders; eauto. split; assumption.
 Qed.
 
 Lemma delete_plain_final : forall succ subject manifest st x ord,
